@@ -237,6 +237,9 @@ func init() {
 		ctx.Count("exhaustive_maps", int64(maps))
 		for i := 0; i < ctx.N(24, 240); i++ {
 			c12RealBackends(ctx)
+			if i%8 == 0 {
+				c12Concurrent(ctx)
+			}
 		}
 		// random part: full-size, non-monotonic, constant, single-entry maps
 		nr := ctx.N(6000, 80000)
